@@ -230,7 +230,9 @@ class HbScenario(cmdscn.CmdScenario):
                 k = (wfscn.jl(a['input']) or {}).get('key')
                 exp_keys.append(k)
         for k in exp_keys:
-            res[k] = ['E']
+            # the lost request consumed none of the planned results: a
+            # later attempt (retry policy) of the same task gets them
+            res[k] = ['E'] + list(self.results.get(k) or [])
         unresolved = [k for k in w.extra['lost'] if k not in exp_keys]
         unresolved += [k for k, r in self.results.items() if r == ['N']]
         if unresolved:
@@ -365,6 +367,23 @@ def programs():
     # executor: the action itself is still running and must still be failed
     P['timeout_first'] = direct({'a': T(timeout=2, **{'on-error': ['h']}),
                                  'h': T()})
+    # the failure the checker reports goes through the task's policies and
+    # clauses like any other failure of that action
+    P['retry1'] = direct({'a': T(retry={'count': 1, 'delay': 0},
+                                 **{'on-success': ['b'], 'on-error': ['h']}),
+                          'b': T(), 'h': T()})
+    P['retry1_delay'] = direct(
+        {'a': T(retry={'count': 1, 'delay': 1},
+                **{'on-success': ['b'], 'on-error': ['h']}),
+         'b': T(), 'h': T()})
+    P['wait_after'] = direct({'a': T(**{'wait-after': 1, 'on-error': ['h'],
+                                        'on-success': ['b']}),
+                              'b': T(), 'h': T()})
+    P['publish_on_error'] = direct(
+        {'a': T(**{'publish-on-error': {'e': ['lit', 1]},
+                   'on-error': ['h']}),
+         'h': T(publish={'seen': ['var', 'e']})},
+        output={'seen': ['var', 'seen']})
     return P
 
 
